@@ -1,12 +1,18 @@
-(* Proofs/C05Facts.v — facts about Model/IntervalLen.v (property C05). *)
+(* Proofs/C05Facts.v — facts about Model/IntervalLen.v (property C05).
+   Part 1: the integer heart (no float): what Interval.__new__ feeds to total_seconds() is the difference of the two UTC instants.
+   Part 2: ordering (absolute / invert) and the region in which CPython's same-tzinfo wall-clock comparison disagrees with the instants.
+   Part 3: operand normalisation of __sub__/__rsub__.
+   Part 4: the Duration: its native value is the float round trip of exactly that delta (closed); exactness / 64 us / truncation from explicit
+           float premises; closed boundary families by kernel computation. *)
 From Coq Require Import ZArith List Bool Lia ZifyBool.
 From Coq Require Import Floats.SpecFloat.
-From PV Require Import Lib.PyBase Spec.Cal Spec.Zone Spec.TdFloat Gen.Constants Model.Duration Model.TzConvert Model.IntervalLen.
+From PV Require Import Lib.PyBase Lib.Reflect Spec.Cal Spec.Zone Spec.TdFloat Gen.Constants Model.Duration Model.TzConvert Model.IntervalLen.
 From PV Require Import Proofs.CalFacts Proofs.ZoneFacts Proofs.TdFloatFacts Proofs.C09Facts.
 Import ListNotations.
 Open Scope Z_scope.
 Ltac Zify.zify_post_hook ::= Z.to_euclidean_division_equations.
 
+(* ------------------------------------------------------------------ 1. the delta *)
 Lemma native_delta_aware : forall a b D, e_dt a = true -> aware a = true -> aware b = true ->
   native_delta a b = Ok D -> D = ep_inst b - ep_inst a.
 Proof.
@@ -17,3 +23,264 @@ Proof.
     intros H. inversion H. reflexivity.
   - intros H. inversion H. reflexivity.
 Qed.
+
+Lemma same_tz_aware : forall a b, same_tz a b = true -> aware b = aware a.
+Proof. intros a b H. unfold same_tz in H. unfold aware. apply Z.eqb_eq in H. rewrite H. reflexivity. Qed.
+
+Lemma same_tz_sym : forall a b, same_tz a b = same_tz b a.
+Proof. intros. unfold same_tz. apply Z.eqb_sym. Qed.
+
+(* the only exception, and exactly when *)
+Lemma native_delta_raises : forall a b e, native_delta a b = Raise e ->
+  e = E_OverflowError /\ e_dt a = true /\ same_tz a b = true /\ aware a = true /\ aware b = true /\
+  (wall_in_range (ep_inst a) = false \/ wall_in_range (ep_inst b) = false).
+Proof.
+  intros a b e. unfold native_delta, utc_naive.
+  destruct (e_dt a) eqn:Hdt; cbn [negb]; [|discriminate].
+  destruct (same_tz a b) eqn:Hs; [|discriminate].
+  destruct (aware a) eqn:Ha; [|discriminate].
+  pose proof (same_tz_aware a b Hs) as Hb. rewrite Ha in Hb.
+  unfold ep_inst. rewrite Ha, Hb.
+  destruct (wall_in_range (inst (e_zone a) (e_W a) (e_fold a))) eqn:Ra; cbn [bind].
+  - destruct (wall_in_range (inst (e_zone b) (e_W b) (e_fold b))) eqn:Rb; cbn [bind]; [discriminate|].
+    intros H. inversion H. repeat split; auto.
+  - intros H. inversion H. repeat split; auto.
+Qed.
+
+Lemma native_delta_ok : forall a b,
+  (e_dt a = true -> same_tz a b = true -> aware a = true -> wall_in_range (ep_inst a) = true /\ wall_in_range (ep_inst b) = true) ->
+  exists D, native_delta a b = Ok D.
+Proof.
+  intros a b H. destruct (native_delta a b) as [D|e] eqn:E; [eauto|].
+  apply native_delta_raises in E. destruct E as (_ & H1 & H2 & H3 & _ & [H4|H4]); destruct (H H1 H2 H3); congruence.
+Qed.
+
+(* endpoints that ARE renderings of two instants (what pendulum produces from any conversion / arithmetic): the delta is the
+   difference of those instants, for every pair of well-formed tables, shared tzinfo object or not *)
+Lemma native_delta_rendered : forall za zb Ua Ub na nb oa ob ca cb fxa fxb,
+  wf_zone za = true -> wf_zone zb = true -> oa <> 0 -> ob <> 0 ->
+  wall_in_range Ua = true -> wall_in_range Ub = true ->
+  native_delta (mkep true na oa ca fxa za (fst (render za Ua)) (snd (render za Ua)))
+               (mkep true nb ob cb fxb zb (fst (render zb Ub)) (snd (render zb Ub))) = Ok (Ub - Ua).
+Proof.
+  intros za zb Ua Ub na nb oa ob ca cb fxa fxb Hwa Hwb Hoa Hob Ra Rb.
+  pose proof (render_inst za Ua Hwa) as Ia. pose proof (render_inst zb Ub Hwb) as Ib.
+  destruct (render za Ua) as [Wa fa]. destruct (render zb Ub) as [Wb fb]. cbn [fst snd].
+  unfold native_delta, utc_naive, ep_inst, aware, same_tz. cbn [e_dt e_obj e_zone e_W e_fold negb].
+  rewrite Ia, Ib, Ra, Rb. cbn [bind].
+  destruct (oa =? ob); destruct (oa =? 0) eqn:E1; destruct (ob =? 0) eqn:E2; cbn [negb]; try lia; reflexivity.
+Qed.
+
+(* naive pairs and date pairs: the wall-clock difference *)
+Lemma native_delta_naive_date : forall a b,
+  (e_dt a = false \/ (aware a = false /\ aware b = false)) -> native_delta a b = Ok (e_W b - e_W a).
+Proof.
+  intros a b [H|[Ha Hb]]; unfold native_delta.
+  - rewrite H. reflexivity.
+  - destruct (e_dt a); cbn [negb]; [|reflexivity].
+    destruct (same_tz a b); [rewrite Ha; reflexivity|]. unfold ep_inst. rewrite Ha, Hb. reflexivity.
+Qed.
+
+Lemma native_delta_swap : forall a b D, e_dt a = e_dt b -> native_delta a b = Ok D -> native_delta b a = Ok (- D).
+Proof.
+  intros a b D Hk. unfold native_delta. rewrite <- Hk, (same_tz_sym b a).
+  destruct (e_dt a); cbn [negb].
+  - destruct (same_tz a b) eqn:Hs.
+    + rewrite (same_tz_aware a b Hs). destruct (aware a).
+      * unfold utc_naive.
+        destruct (wall_in_range (inst (e_zone a) (e_W a) (e_fold a))); cbn [bind]; [|discriminate].
+        destruct (wall_in_range (inst (e_zone b) (e_W b) (e_fold b))); cbn [bind]; [|discriminate].
+        intros H. inversion H. f_equal. lia.
+      * intros H. inversion H. f_equal. lia.
+    + intros H. inversion H. f_equal. lia.
+  - intros H. inversion H. f_equal. lia.
+Qed.
+
+Lemma interval_delta_swap : forall a b D, interval_new_delta a b false = Ok D -> interval_new_delta b a false = Ok (- D).
+Proof.
+  intros a b D. unfold interval_new_delta. rewrite (xorb_comm (e_dt b)), (xorb_comm (aware b)).
+  destruct (xorb (e_dt a) (e_dt b)) eqn:Hx; [discriminate|].
+  assert (Hk : e_dt a = e_dt b) by (destruct (e_dt a), (e_dt b); cbn in Hx; congruence).
+  rewrite <- Hk.
+  destruct (e_dt a && xorb (aware a) (aware b)); [discriminate|]. cbn [bind].
+  apply native_delta_swap. exact Hk.
+Qed.
+
+(* non-absolute construction: the delta, for aware datetimes *)
+Lemma interval_delta_aware : forall a b D, e_dt a = true -> e_dt b = true -> aware a = true -> aware b = true ->
+  interval_new_delta a b false = Ok D -> D = ep_inst b - ep_inst a.
+Proof.
+  intros a b D Ha Hb Aa Ab. unfold interval_new_delta. rewrite Ha, Hb, Aa, Ab. cbn [xorb andb bind].
+  apply native_delta_aware; assumption.
+Qed.
+
+(* the year-1 edge: both walls are valid, the elapsed time is 84600 s, the code raises *)
+Definition edge_a : ep := mkep true false 10 10 true (fixed_zone 3600) (30 * 60 * MEG) false.          (* 0001-01-01T00:30+01:00 *)
+Definition edge_b : ep := mkep true false 10 10 true (fixed_zone 3600) (86400 * MEG) false.             (* 0001-01-02T00:00+01:00 *)
+Lemma edge_overflow_witness :
+  wall_in_range (e_W edge_a) = true /\ wall_in_range (e_W edge_b) = true /\ ep_inst edge_b - ep_inst edge_a = 84600 * MEG /\
+  interval_new_delta edge_a edge_b false = Raise E_OverflowError /\
+  (* with two distinct tzinfo objects of the same offset the same pair is measured *)
+  interval_new_delta edge_a (mkep true false 11 10 true (fixed_zone 3600) (86400 * MEG) false) false = Ok (84600 * MEG).
+Proof. vm_compute. repeat split; reflexivity. Qed.
+
+(* ------------------------------------------------------------------ 2. ordering: absolute and invert *)
+(* CPython's `a > b` agrees with the order of the instants *)
+Definition order_agrees (a b : ep) : Prop :=
+  same_tz a b = true -> (e_W a >? e_W b) = (ep_inst a >? ep_inst b).
+
+Lemma py_gt_aware : forall a b, e_dt a = true -> aware a = true -> aware b = true -> order_agrees a b ->
+  py_gt a b = Ok (ep_inst a >? ep_inst b).
+Proof.
+  intros a b Hdt Ha Hb Ho. unfold py_gt. rewrite Hdt, Ha, Hb. cbn [negb xorb].
+  destruct (same_tz a b) eqn:Hs; [rewrite (Ho Hs)|]; reflexivity.
+Qed.
+
+Lemma interval_abs_aware : forall a b D, e_dt a = true -> e_dt b = true -> aware a = true -> aware b = true ->
+  order_agrees a b -> interval_new_delta a b true = Ok D -> D = Z.abs (ep_inst b - ep_inst a).
+Proof.
+  intros a b D Ha Hb Aa Ab Ho. unfold interval_new_delta. rewrite Ha, Hb, Aa, Ab. cbn [xorb andb].
+  rewrite (py_gt_aware a b Ha Aa Ab Ho). cbn [bind].
+  destruct (ep_inst a >? ep_inst b) eqn:G; intros H.
+  - apply native_delta_aware in H; auto. lia.
+  - apply native_delta_aware in H; auto. lia.
+Qed.
+
+(* in the region where the wall order of two values sharing the tzinfo object differs from the order of their instants the result is MINUS the magnitude *)
+Lemma interval_abs_region : forall a b D, e_dt a = true -> e_dt b = true -> aware a = true -> aware b = true ->
+  same_tz a b = true -> (e_W a >? e_W b) <> (ep_inst a >? ep_inst b) ->
+  interval_new_delta a b true = Ok D -> D = - Z.abs (ep_inst b - ep_inst a).
+Proof.
+  intros a b D Ha Hb Aa Ab Hs Hne. unfold interval_new_delta. rewrite Ha, Hb, Aa, Ab. cbn [xorb andb].
+  unfold py_gt. rewrite Ha, Aa, Ab, Hs. cbn [negb xorb bind].
+  destruct (e_W a >? e_W b) eqn:G; intros H; apply native_delta_aware in H; auto;
+  destruct (ep_inst a >? ep_inst b) eqn:G2; try congruence; lia.
+Qed.
+
+Lemma interval_abs_naive_date : forall a b D, e_dt a = e_dt b -> (e_dt a = false \/ (aware a = false /\ aware b = false)) ->
+  interval_new_delta a b true = Ok D -> D = Z.abs (e_W b - e_W a).
+Proof.
+  intros a b D Hk Hc. unfold interval_new_delta. rewrite <- Hk. rewrite xorb_nilpotent.
+  assert (Hg : py_gt a b = Ok (e_W a >? e_W b)).
+  { unfold py_gt. destruct Hc as [H|[Ha Hb]].
+    - rewrite H. reflexivity.
+    - destruct (e_dt a); cbn [negb]; [|reflexivity]. rewrite Ha, Hb. cbn [xorb].
+      assert (same_tz a b = true) as ->; [|reflexivity].
+      unfold same_tz, aware in *. lia. }
+  assert (Hx : e_dt a && xorb (aware a) (aware b) = false).
+  { destruct Hc as [H|[Ha Hb]]; [rewrite H; reflexivity | rewrite Ha, Hb; apply andb_false_r]. }
+  rewrite Hx, Hg. cbn [bind].
+  assert (Hc' : e_dt b = false \/ (aware b = false /\ aware a = false)) by (rewrite <- Hk; tauto).
+  destruct (e_W a >? e_W b) eqn:G; intros H.
+  - rewrite (native_delta_naive_date b a Hc') in H. inversion H. lia.
+  - rewrite (native_delta_naive_date a b Hc) in H. inversion H. lia.
+Qed.
+
+(* the region is confined to offset changes: the two readings use different offsets and the walls are closer than the offsets differ *)
+Lemma order_region_small : forall z Wa fa Wb fb,
+  let oa := off_local z (Wa / MEG) fa in let ob := off_local z (Wb / MEG) fb in
+  (Wa >? Wb) <> (inst z Wa fa >? inst z Wb fb) ->
+  oa <> ob /\ Z.abs (Wa - Wb) <= MEG * Z.abs (oa - ob).
+Proof.
+  intros z Wa fa Wb fb oa ob. unfold inst. fold oa ob. unfold MEG.
+  destruct (Wa >? Wb) eqn:G1; destruct (Wa - 1000000 * oa >? Wb - 1000000 * ob) eqn:G2; intros H; try congruence; lia.
+Qed.
+
+(* witness: Europe/Paris 2013-10-27, the repeated hour 02:00-03:00.  a = 02:30 second occurrence, b = 02:45 first occurrence (45 min EARLIER) *)
+Definition paris13 : zone := mkzone 3600 [((62135596800 + 1364691600), 7200); ((62135596800 + 1382835600), 3600)].
+Definition W_0230 : Z := ((62135596800 + 1382835600) + 3600 + 1800) * MEG.
+Definition W_0245 : Z := ((62135596800 + 1382835600) + 3600 + 2700) * MEG.
+Definition par_a : ep := mkep true false 10 10 false paris13 W_0230 true.
+Definition par_b : ep := mkep true false 10 10 false paris13 W_0245 false.
+
+Lemma abs_refuted_witness :
+  wf2_zone paris13 = true /\ wall_repeated paris13 (W_0230 / MEG) /\ wall_repeated paris13 (W_0245 / MEG) /\
+  ep_inst par_b - ep_inst par_a = - (2700 * MEG) /\
+  interval_new_delta par_a par_b true = Ok (- (2700 * MEG)) /\
+  interval_new_delta par_b par_a true = Ok (- (2700 * MEG)).
+Proof. vm_compute. repeat split; reflexivity. Qed.
+
+(* ------------------------------------------------------------------ 3. Interval(a, b) as a whole *)
+Lemma bind_ok' : forall A B (r : result A) (f : A -> result B) b,
+  bind r f = Ok b -> exists a, r = Ok a /\ f a = Ok b.
+Proof. intros A B [a|e] f b H; cbn in H; [eauto | discriminate]. Qed.
+
+Lemma interval_make_inv : forall a b ab i, interval_make a b ab = Ok i ->
+  exists D a' b' inv,
+    interval_new_delta a b ab = Ok D /\ duration_of_float_seconds (total_seconds D) = Ok (i_dur i) /\
+    instance_ep a = Ok a' /\ instance_ep b = Ok b' /\ py_gt a' b' = Ok inv /\ i_invert i = inv /\ i_abs i = ab /\
+    i_start i = (if inv && ab then b' else a') /\ i_end i = (if inv && ab then a' else b').
+Proof.
+  intros a b ab i H. unfold interval_make in H.
+  apply bind_ok' in H. destruct H as [D [HD H]].
+  apply bind_ok' in H. destruct H as [d [Hd H]].
+  apply bind_ok' in H. destruct H as [a' [Ha H]].
+  apply bind_ok' in H. destruct H as [b' [Hb H]].
+  apply bind_ok' in H. destruct H as [inv [Hi H]].
+  exists D, a', b', inv.
+  destruct (inv && ab) eqn:E; inversion H; subst i; cbn; repeat split; auto.
+Qed.
+
+Lemma duration_of_float_inv : forall x d, duration_of_float_seconds x = Ok d ->
+  td_of_float_seconds x = Ok (d_N d) /\ d_abs d = false.
+Proof.
+  intros x d H. unfold duration_of_float_seconds in H.
+  apply bind_ok' in H. destruct H as [N [HN H]].
+  apply bind_ok' in H. destruct H as [[total [[m micro] it]] [_ H]].
+  inversion H. subst d. cbn. auto.
+Qed.
+
+Lemma instance_pendulum : forall a, e_native a = false -> instance_ep a = Ok a.
+Proof. intros a H. unfold instance_ep. rewrite H. reflexivity. Qed.
+
+(* the native value of the Duration is the float round trip of EXACTLY the elapsed microseconds (no float premise) *)
+Lemma interval_length_roundtrip : forall a b i, e_dt a = true -> e_dt b = true -> aware a = true -> aware b = true ->
+  interval_make a b false = Ok i ->
+  td_of_float_seconds (total_seconds (ep_inst b - ep_inst a)) = Ok (d_N (i_dur i)) /\ d_abs (i_dur i) = false.
+Proof.
+  intros a b i Ha Hb Aa Ab H. apply interval_make_inv in H.
+  destruct H as (D & a' & b' & inv & HD & Hd & _).
+  apply interval_delta_aware in HD; auto. subst D. apply duration_of_float_inv. exact Hd.
+Qed.
+
+Lemma interval_length_roundtrip_abs : forall a b i, e_dt a = true -> e_dt b = true -> aware a = true -> aware b = true ->
+  order_agrees a b -> interval_make a b true = Ok i ->
+  td_of_float_seconds (total_seconds (Z.abs (ep_inst b - ep_inst a))) = Ok (d_N (i_dur i)).
+Proof.
+  intros a b i Ha Hb Aa Ab Ho H. apply interval_make_inv in H.
+  destruct H as (D & a' & b' & inv & HD & Hd & _).
+  apply interval_abs_aware in HD; auto. subst D. apply duration_of_float_inv. exact Hd.
+Qed.
+
+Lemma interval_length_roundtrip_naive_date : forall a b i,
+  (e_dt a = false \/ (aware a = false /\ aware b = false)) ->
+  interval_make a b false = Ok i ->
+  td_of_float_seconds (total_seconds (e_W b - e_W a)) = Ok (d_N (i_dur i)).
+Proof.
+  intros a b i Hc H. apply interval_make_inv in H.
+  destruct H as (D & a' & b' & inv & HD & Hd & _).
+  unfold interval_new_delta in HD.
+  destruct (xorb (e_dt a) (e_dt b)); [discriminate|].
+  destruct (e_dt a && xorb (aware a) (aware b)); [discriminate|]. cbn [bind] in HD.
+  rewrite (native_delta_naive_date a b Hc) in HD. inversion HD. subst D. apply duration_of_float_inv. exact Hd.
+Qed.
+
+(* invert: the order of the instants, for pendulum endpoints outside the region *)
+Lemma invert_flag : forall a b ab i, e_native a = false -> e_native b = false ->
+  e_dt a = true -> aware a = true -> aware b = true -> order_agrees a b ->
+  interval_make a b ab = Ok i -> i_invert i = (ep_inst a >? ep_inst b).
+Proof.
+  intros a b ab i Na Nb Ha Aa Ab Ho H. apply interval_make_inv in H.
+  destruct H as (D & a' & b' & inv & _ & _ & Ia & Ib & Hg & Hi & _).
+  rewrite (instance_pendulum a Na) in Ia. rewrite (instance_pendulum b Nb) in Ib. inversion Ia. inversion Ib. subst a' b'.
+  rewrite (py_gt_aware a b Ha Aa Ab Ho) in Hg. inversion Hg. congruence.
+Qed.
+
+Lemma invert_refuted_witness :
+  exists i j, interval_make par_a par_b false = Ok i /\ i_invert i = false /\ d_N (i_dur i) = - (2700 * MEG)
+           /\ interval_make par_b par_a false = Ok j /\ i_invert j = true /\ d_N (i_dur j) = 2700 * MEG.
+Proof. eexists. eexists. vm_compute. repeat split; reflexivity. Qed.
+
+Lemma abs_refuted_interval :
+  exists i, interval_make par_a par_b true = Ok i /\ d_N (i_dur i) = - (2700 * MEG) /\ dur_in_minutes (i_dur i) = Ok (-45).
+Proof. eexists. vm_compute. repeat split; reflexivity. Qed.
